@@ -345,6 +345,8 @@ class CouplingGraph(Collection[tuple[int, int]]):
                 path from i to j.
         """
         D = copy.deepcopy(self._mat)
+        for i in range(self.num_qudits):
+            D[i][i] = 0.0
         for k in range(self.num_qudits):
             for i in range(self.num_qudits):
                 for j in range(self.num_qudits):
